@@ -34,7 +34,7 @@ TEXT = {
          "doctor's blind spots bound the 'no issue' clause; independent string-list encoder in the harness"),
  "C04": ("The complete diff event stream of the real differ is compared with a set-difference model keyed by key hash for (T1,T2), (T2,T1), (T1,T1) over generated table pairs incl. empty sides and shifted block boundaries; the events are also resolved back to rows through the readers the diff command uses, and the CSV report of `wrgl diff --no-gui` is parsed and judged.",
          "inputs are C03-valid tables with unique keys; common keys under differing columns are don't-cares; keyless tables with differing column lists are not diffed row by row by design and not judged"),
- "C05": ("A cell-level reference merge with explicit don't-cares is compared with Merger/RowCollector output through three paths (rows, blocks+ingest+structural monitor, real `wrgl merge`). One structural class (key column not first) is an open known finding; all other classes are judged; for keyless tables whose columns change wrgl (since a repair) refuses the merge, which is accepted for that class only.",
+ "C05": ("A cell-level reference merge with explicit don't-cares is compared with Merger/RowCollector output through three paths (rows, blocks+ingest+structural monitor, real `wrgl merge`). All structural classes are judged (the key-not-first class was an open finding until its repair e14f703); for keyless tables whose columns change wrgl (since a repair) refuses the merge, which is accepted for that class only.",
          "N<=3 branches; the interactive merge UI is not driven; cells where the statement gives no rule accept any outcome"),
  "C06": ("Round trip, re-encode identity and content addressing for generated commits, tables, blocks, block indices, profiles; the packfile length header exhaustively over a range plus all 2^k boundaries and samples.",
          "instants outside [1970,2286) excluded; profiles are those the profiler produces"),
